@@ -24,3 +24,85 @@ Example C11_nonvacuous :
   (ok1, ok2, ok3, ok4) = (true, true, false, true) /\ map (fun e => match e with EvTx id _ _ _ => id | _ => 0 end) ev = [1; 2] /\ ring_contents q4 = [].
 Proof. vm_compute. repeat split. Qed.
 Print Assumptions C11_nonvacuous.
+
+(* ================= C11 at node level (Spec/NodeQueueSpec.v, Proofs/NodeQueueProofsA-E.v) =================
+   In EVERY history of node operations (xrun: receives, polls, application sends, timers, ISO-TP, address claim, ISO requests, group
+   functions, heartbeat, the public calls) the node drives the CAN driver exactly like a FIFO would: each step is a run of SendFrames /
+   SendFrame calls on the ring, its EvTx events are the driver calls of that run; hence (through run_refines' step lemma) the driver
+   calls of the whole history are those of the list FIFO.  The only operation that is not such a run is the environment's OAccept. *)
+From N2kV Require Import Model.NodeRxDefs Model.GroupFnDefs Model.ApiDefs Model.PgnClass Spec.NodeQueueSpec
+  Proofs.NodeQueueProofsD Proofs.NodeQueueProofsE.
+
+Theorem C11_gf_instances_qtrace : gf_instances_qtrace_stmt.  Proof. exact gf_instances_qtrace. Qed.
+Print Assumptions C11_gf_instances_qtrace.
+Theorem C11_node_step_qtrace : node_step_qtrace_stmt.  Proof. exact node_step_qtrace. Qed.
+Print Assumptions C11_node_step_qtrace.
+Theorem C11_node_step_accept : node_step_accept_stmt.  Proof. exact node_step_accept. Qed.
+Print Assumptions C11_node_step_accept.
+Theorem C11_node_step_accept_refuted : node_step_accept_refuted_stmt.  Proof. exact node_step_accept_refuted. Qed.
+Print Assumptions C11_node_step_accept_refuted.
+Theorem C11_node_run_qtrace : node_run_qtrace_stmt.  Proof. exact node_run_qtrace. Qed.
+Print Assumptions C11_node_run_qtrace.
+Theorem C11_node_run_qtrace_noaccept : node_run_qtrace_noaccept_stmt.  Proof. exact node_run_qtrace_noaccept. Qed.
+Print Assumptions C11_node_run_qtrace_noaccept.
+Theorem C11_node_run_fifo : node_run_fifo_stmt.  Proof. exact node_run_fifo. Qed.
+Print Assumptions C11_node_run_fifo.
+Theorem C11_node_no_loss_no_dup : node_no_loss_no_dup_stmt.  Proof. exact node_no_loss_no_dup. Qed.
+Print Assumptions C11_node_no_loss_no_dup.
+Theorem C11_node_retry : node_retry_stmt.  Proof. exact node_retry. Qed.
+Print Assumptions C11_node_retry.
+
+(* the node as shipped (the library's group function handlers): the hypothesis on gf is discharged *)
+Theorem C11_node_run_fifo_lib :
+  forall r ops r' evs, ring_wf (n_q (rn r)) -> xrun gf_lib r ops = (r', evs) ->
+    ring_wf (n_q (rn r')) /\ q_max (n_q (rn r')) = q_max (n_q (rn r)) /\
+    exists eops outs,
+      el_run (q_max (n_q (rn r)) - 1) (ring_contents (n_q (rn r))) (n_drv (rn r)) eops = (ring_contents (n_q (rn r')), n_drv (rn r'), outs) /\
+      tx_events (concat evs) = concat (map fst outs) /\ Forall eop_len_ok eops /\ scripts_of eops = accepts_of ops.
+Proof. exact (node_run_fifo gf_lib (proj2 gf_instances_qtrace)). Qed.
+Print Assumptions C11_node_run_fifo_lib.
+Theorem C11_node_retry_lib :
+  forall r ops r' evs, ring_wf (n_q (rn r)) -> xrun gf_lib r ops = (r', evs) -> retry_ok (tx_events (concat evs)).
+Proof. exact (node_retry gf_lib (proj2 gf_instances_qtrace)). Qed.
+Print Assumptions C11_node_retry_lib.
+
+(* non-vacuity: two devices (addresses 30, 31), a ring of 3 (capacity 2), cold start.  Three polls open the node (the two address
+   claims go out), the claim windows pass.  Then the driver refuses four calls, accepts one, refuses one: the first application send
+   is refused and queued, the second finds the head refused again and is queued behind it, the third (a fast packet) finds the queue
+   full and fails, the poll's SendFrames is refused once more - always for the SAME frame -, SendProductInformation flushes the two
+   queued frames in order (one more refusal in between) before its own three frames.  Later calls (SendHeartbeat(iDev), SetMode,
+   Restart, SendFrames) and, after the new claim windows, a final refused send that stays queued. *)
+Definition c11_cfg : rcfg :=
+  {| c_only_known := false; c_iso_handler := None; c_prodinfo := repeat 65 20%nat; c_confinfo := [3;1;65;2;1;2;1]; c_hb_on := false;
+     c_inst1 := [65]; c_inst2 := []; c_manuf := []; c_inst_changed := false |}.
+Definition c11_node : rnode := cold_node true 1 5000 3 5 no_lists [mk_dev true 30 1001 []; mk_dev true 31 1002 []] [[]; []] c11_cfg.
+Definition c11_m1 (b:Z) : msg := {| m_pri := 2; m_pgn := 127250; m_src := 0; m_dst := 255; m_data := [b;1;2;3;4;5;6;7]; m_tp := false |}.
+Definition c11_m2 : msg := {| m_pri := 3; m_pgn := 129029; m_src := 0; m_dst := 255; m_data := [1;2;3;4;5;6;7;8;9;10;11;12;13]; m_tp := false |}.
+Definition c11_ops : list xop :=
+  [ XBase RPoll; XBase (RBase (OTick 250)); XBase RPoll; XBase (RBase (OTick 300)); XBase RPoll; XBase (RBase (OTick 300)); XBase RPoll;
+    XBase (RBase (OAccept [false; false; false; false; true; false]));
+    XBase (RBase (OSend 0 (c11_m1 10))); XBase (RBase (OSend 1 (c11_m1 11))); XBase (RBase (OSend 0 c11_m2));
+    XBase RPoll;
+    XApi (ASendProd 0);
+    XBase (RBase (OAccept []));
+    XApi (ASendHeartbeatDev 1); XApi (ASetMode 1 40); XApi ARestart;
+    XBase (RBase OFlush);
+    XBase (RBase (OTick 300)); XBase (RBase (OAccept [false])); XBase (RBase (OSend 1 (c11_m1 13))) ].
+Definition c11_show (e:event) : Z * bool := match e with EvTx id _ _ a => (id, a) | _ => (0, false) end.
+Definition c11_results (ev:list event) : list bool := flat_map (fun e => match e with EvResult b => [b] | _ => [] end) ev.
+Example C11_node_nonvacuous :
+  let '(r', evs) := xrun gf_lib c11_node c11_ops in
+  (2 <=? q_max (n_q (rn c11_node))) = true /\ ring_contents (n_q (rn c11_node)) = [] /\
+  map c11_show (tx_events (concat evs)) =
+    [ (418316062, true); (418316063, true);                                         (* the address claims when the node opens *)
+      (166793758, false); (166793758, false); (166793758, false); (166793758, false); (* first send refused; retried by sends 2, 3 and the poll *)
+      (166793758, true); (166793759, false); (166793759, true);                     (* SendProductInformation flushes the queue in order *)
+      (435164190, true); (435164190, true); (435164190, true);                      (* ... then its three fast-packet frames *)
+      (502272287, true);                                                            (* SendHeartbeat(1) *)
+      (418316072, true); (418316073, true);                                         (* Restart after SetMode(.., 40): claims from 40, 41 *)
+      (166793769, false) ] /\                                                       (* the last send, refused and queued *)
+  c11_results (concat evs) = [true; true; false; true] /\
+  map f_id (ring_contents (n_q (rn r'))) = [166793769] /\
+  accepts_of c11_ops = [[false; false; false; false; true; false]; []; [false]].
+Proof. vm_compute. repeat split. Qed.
+Print Assumptions C11_node_nonvacuous.
